@@ -14,6 +14,12 @@ CLAIMS = {
         "Decides on every path of every public parser function: no success return rests on an end-of-input look-ahead answer unless the parked I/O error was consulted afterwards; plus who-may-construct SyntaxError, the eof tokens and no-dropped-error rules. It decides this clause, not item equality with the fault-free run.",
         "DESIGN.md §4 C04",
     ),
+    "C08": (
+        "other",
+        "interprocedural typestate analysis (mark set/unset) plus per-function path rules with affine offset matching over MIR",
+        "Decides how the three pieces of location state are maintained on every path to an error: mark() only after set_mark() on the current line (all API roots, all call paths), line_start never ahead of the cursor when an error can be raised or a token returns, every matched-and-consumed line feed is counted, errors raised only at the cursor or the mark, column formula. It does not decide that the column lies on the token for errors raised at the cursor after partial look-ahead, nor message text.",
+        "DESIGN.md §4 C08",
+    ),
     "C09": (
         "other",
         "CFG/guard-dominance rules on the reader's refill code plus interprocedural typestate analysis (last look-ahead answer) over MIR",
